@@ -113,3 +113,27 @@ Lemma tok_hash_weak_coherent : forall a b, tok_eqb a b = true -> tok_hash_weak a
 Proof.
   unfold tok_eqb, tok_hash_weak. intros a b H. apply andb_true_iff in H. destruct H as [_ H]. apply Z.eqb_eq in H. rewrite H. reflexivity.
 Qed.
+
+(* ---- the byte loop of lhash is total: with step >= 1 the fuel S(length data) suffices and every data[len - 1]
+   it reads lies inside the data, so the fuel-exhaustion result and the default of [nth] in [lhash_loop] are dead *)
+Lemma lhash_loop_total : forall fuel data len seed step,
+  (1 <= step)%Z -> (0 <= len <= Z.of_nat (length data))%Z -> (len < Z.of_nat fuel)%Z ->
+  lhash_loop_o fuel data len seed step = Some (lhash_loop fuel data len seed step).
+Proof.
+  induction fuel as [|f IH]; intros data len seed step Hs Hl Hf; [cbn in Hf; lia|].
+  cbn [lhash_loop_o lhash_loop]. destruct (Z.geb_spec len step) as [G|G]; [|reflexivity].
+  assert (Z.to_nat (len - 1) < length data)%nat as L by lia.
+  rewrite (nth_error_nth' data 0%Z L). apply IH; lia.
+Qed.
+
+Theorem lhash_total : forall data seed step, (1 <= step)%Z -> lhash_o data seed step = Some (lhash data seed step).
+Proof. intros. unfold lhash_o, lhash. apply lhash_loop_total; lia. Qed.
+
+Theorem hash_bytes_total : forall data,
+  lhash_o data HASH_SEED 1 = Some (hash_short data) /\
+  lhash_o data HASH_SEED (Z.shiftr (Z.of_nat (length data)) 5 + 1) = Some (hash_long data).
+Proof.
+  intros. split; [apply lhash_total; lia|]. apply lhash_total.
+  pose proof (Z.shiftr_nonneg (Z.of_nat (length data)) 5). lia.
+Qed.
+
